@@ -45,6 +45,9 @@ structure Quirks where
   undirectedSameVariableMatchesIncident : Bool := false -- (a)-[r]-(a) matches every edge incident to a, not only self loops
   withDropsOrderSkipLimit : Bool := false  -- ORDER BY / SKIP / LIMIT written on a WITH clause are ignored
   undirectedBoundStepBothEndpoints : Bool := false -- an undirected step from a bound node may bind the far node to either endpoint (also the near node itself)
+  optionalOnlyLastStepOuter : Bool := false -- OPTIONAL MATCH with a pattern of >= 2 fixed steps: only the last step is outer-joined (rows whose earlier steps find nothing vanish)
+  expansionIgnoresUsed : Bool := false     -- a variable-length step may reuse relationships already bound by earlier steps of the same MATCH
+  propVsPropJsonbOrder : Bool := false     -- prop < prop (both sides property lookups) compares the jsonb values: String < Number < Boolean instead of null for different types
 deriving Repr, Inhabited
 
 def Quirks.none : Quirks := {}
@@ -285,6 +288,11 @@ def cmpOp (qk : Quirks) (underNot : Bool) (op : String) (lp rp lv rv : Bool) (a 
     | _ => .error "is-not-non-null"
   | _ =>
     let textual := qk.propEqualsVariableOnTextForm && (op == "=" || op == "<>") && ((lp && rv) || (lv && rp))
+    let scalar := fun (v : CVal) => match v with | .str _ => true | .int _ => true | .dec _ => true | .bool _ => true | _ => false
+    if qk.propVsPropJsonbOrder && lp && rp && scalar a && scalar b && (op == "<" || op == "<=" || op == ">" || op == ">=") then
+      let o := orderCmp true a b
+      pure (.bool (match op with | "<" => o == .lt | "<=" => o != .gt | ">" => o == .gt | _ => o != .lt))
+    else
     do let t ← (if textual then cRel op (scalarAsText a) (scalarAsText b) else cRel op a b); pure (triToC t)
 
 /-- non-aggregate functions -/
@@ -453,7 +461,7 @@ def matchNode (qk : Quirks) (g : Graph) (st : MState) (id : Int) : NodePat → M
 termination_by np => sizeOf np
 
 /-- all ways to continue from node `cur` along the remaining steps -/
-def matchSteps (qk : Quirks) (g : Graph) (st : MState) (cur : Int) (pathNodes : List Int) (pathRels : List Int) (nearBound : Bool) (nearVar : Option String) :
+def matchSteps (qk : Quirks) (g : Graph) (st : MState) (cur : Int) (pathNodes : List Int) (pathRels : List Int) (nearBound : Bool) (nearVar : Option String) (firstStep : Bool) :
     List (RelPat × NodePat) → M (List (MState × List Int × List Int))
   | [] => .ok [(st, pathNodes, pathRels)]
   | (.mk rvar rkinds dir range rprops, np) :: rest => do
@@ -468,7 +476,7 @@ def matchSteps (qk : Quirks) (g : Graph) (st : MState) (cur : Int) (pathNodes : 
           (g.edges.filter (fun e => e.start == cur || e.stop == cur)).flatMap (fun e => if e.start == e.stop then [(e, e.start)] else [(e, e.stop), (e, e.start)])
         else hopsFrom g dir cur
       let cands := base.filter (fun p => kindAnyOf p.1.kind rkinds && !st.used.contains p.1.id &&
-        !(qk.undirectedNoSelfLoop && dir == .both && (nearBound == farBound) && !farIsNear && p.1.start == p.1.stop))
+        !(qk.undirectedNoSelfLoop && dir == .both && (firstStep || farBound) && !farIsNear && p.1.start == p.1.stop))
       let outs ← cands.mapE (fun p => do
         let ok ← propsMatch qk g st.env p.1.props rprops
         if !ok then pure [] else
@@ -485,12 +493,16 @@ def matchSteps (qk : Quirks) (g : Graph) (st : MState) (cur : Int) (pathNodes : 
         | some st1 => do
           match ← matchNode qk g st1 p.2 np with
           | none => pure []
-          | some st2 => matchSteps qk g st2 p.2 (pathNodes ++ [p.2]) (pathRels ++ [p.1.id]) true np.var rest)
+          | some st2 =>
+            -- under the both-endpoints deviation the far variable may be bound to the near node itself; a path still shows the edge's other endpoint
+            let shown := if qk.undirectedBoundStepBothEndpoints && dir == .both && p.2 == cur && p.1.start != p.1.stop
+              then (if p.1.start == cur then p.1.stop else p.1.start) else p.2
+            matchSteps qk g st2 p.2 (pathNodes ++ [shown]) (pathRels ++ [p.1.id]) true np.var false rest)
       pure outs.flatten
     | some (lo, hi) =>
       let lo' := lo.getD 1
       let hi' := hi.getD (g.edges.length + 1)
-      let trails := expandTrails g dir rkinds qk.expansionStopsAtLoop true st.used cur (min hi' (g.edges.length + 1))
+      let trails := expandTrails g dir rkinds qk.expansionStopsAtLoop true (if qk.expansionIgnoresUsed then [] else st.used) cur (min hi' (g.edges.length + 1))
       let trails := trails.filter (fun t => t.2.1.length ≥ lo' && t.2.1.length ≤ hi')
       let trails := if qk.expansionDropsTrailingLoop then
           trails.filter (fun t => t.2.1.length ≤ 1 || (match t.2.1.getLast? with
@@ -507,7 +519,7 @@ def matchSteps (qk : Quirks) (g : Graph) (st : MState) (cur : Int) (pathNodes : 
           | some v => { st1 with env := (v, .list (t.2.1.map CVal.rel)) :: st1.env }
         match ← matchNode qk g st1 t.1 np with
         | none => pure []
-        | some st2 => matchSteps qk g st2 t.1 (pathNodes ++ t.2.2) (pathRels ++ t.2.1) true np.var rest)
+        | some st2 => matchSteps qk g st2 t.1 (pathNodes ++ t.2.2) (pathRels ++ t.2.1) true np.var false rest)
       pure outs.flatten
 termination_by steps => sizeOf steps
 
@@ -524,7 +536,7 @@ def matchPart (qk : Quirks) (g : Graph) (st : MState) : PatternPart → M (List 
       match ← matchNode qk g st id first with
       | none => pure []
       | some st1 => do
-        let rs ← matchSteps qk g st1 id [id] [] preBound first.var steps
+        let rs ← matchSteps qk g st1 id [id] [] preBound first.var true steps
         pure (rs.map (fun r => match pathVar with
           | none => r.1
           | some pv => { r.1 with env := (pv, .path r.2.1 r.2.2) :: r.1.env })))
@@ -582,6 +594,20 @@ def evalClause (qk : Quirks) (g : Graph) (first : Bool) (envs : List Env) : Clau
       let kept ← sts.filterE (fun st => match wh with
         | none => pure true
         | some w => do let v ← evalExpr qk g st.env false w; truthy v)
+      let multiStep : Option PatternPart := match parts with
+        | [.mk _ false false fst steps] =>
+          if steps.length ≥ 2 && steps.all (fun s => s.1.range.isNone) then some (.mk none false false fst steps.dropLast) else none
+        | _ => none
+      match optional && qk.optionalOnlyLastStepOuter && !(first && qk.optionalFirstIsMatch), multiStep with
+      | true, some prefixPart => do
+        -- deviation switch: the emitted SQL inner-joins all steps but the last and left-outer-joins only the last one
+        let pres ← matchParts qk g [⟨env, []⟩] [prefixPart]
+        let fresh := (parts.flatMap patVars).eraseDups
+        pure (pres.flatMap (fun p =>
+          let ext := kept.filter (fun st => st.used.drop 1 == p.used && p.env.all (fun b => match st.env.lookup b.1 with | some x => cEquiv x b.2 | none => false))
+          if ext.isEmpty then [(fresh.filter (fun v => (p.env.lookup v).isNone)).map (fun v => (v, CVal.null)) ++ p.env]
+          else ext.map (·.env)))
+      | _, _ =>
       if kept.isEmpty && optional && !(first && qk.optionalFirstIsMatch) then
         let fresh := (parts.flatMap patVars).eraseDups.filter (fun v => (env.lookup v).isNone)
         pure [fresh.map (fun v => (v, CVal.null)) ++ env]
@@ -709,7 +735,14 @@ def groupedRows (qk : Quirks) (g : Graph) (names : List String) (items : List Pr
 /-- ORDER BY: key tuples, then a stable sort (no keys: order unchanged) -/
 def keyRows (qk : Quirks) (g : Graph) (orderBy : List (Expr × Bool)) (rows : List (List CVal × Env)) : M (List KeyedRow) := do
   let keyed ← rows.mapE (fun r => do
-    let ks ← orderBy.mapE (fun k => do let v ← evalExpr qk g r.2 false k.1; pure (v, k.2))
+    let ks ← orderBy.mapE (fun k => do
+      let v ← evalExpr qk g r.2 false k.1
+      -- the relative order of paths / of lists holding graph entities is not modelled (no reference order is fixed here)
+      match v with
+      | .path _ _ => .error "nondeterministic-order-by-path"
+      | .list xs => if xs.any (fun x => match x with | .node _ => true | .rel _ => true | .path _ _ => true | _ => false)
+                    then .error "nondeterministic-order-by-entity-list" else pure (v, k.2)
+      | _ => pure (v, k.2))
     pure (ks, r))
   pure (stableSort (fun a b => sortKeysLe qk.jsonbOrdering a.1 b.1) keyed)
 
